@@ -30,6 +30,15 @@ def run(ctx):
     secrets = [1, N - 1, secret_with(last=1), secret_with(last=1), secret_with(last=0), secret_with(first=2), secret_with(first=3),
                secret_with(first=4), secret_with(zeros=1), secret_with(zeros=4, last=1), secret_with(zeros=15)]
     secrets += [secret_with() for _ in range(30 if T else 6)]
+    # secrets whose compressed public key ends in 01 / 00 or starts 02 00 / 03 00 (text forms whose ends look like markers of other formats)
+    found_, d_ = {}, 2
+    while len(found_) < 4 and d_ < 4000:
+        ph = Key(d_).public_hex
+        tag = 'end01' if ph.endswith('01') else 'end00' if ph.endswith('00') else 'x00' if ph[2:4] == '00' else 'x01' if ph[2:4] == '01' else None
+        if tag and tag not in found_:
+            found_[tag] = d_
+        d_ += 1
+    secrets += sorted(found_.values())
 
     def viol(what, **kw):
         ctx.violation(what, dict(op=kw.pop('op', 'roundtrip'), **kw))
